@@ -134,6 +134,8 @@ def handle : Handler := fun op inp =>
       | "concatCreationOrder" => return jOpt jNats (mergeConcatCreationOrder paths done)
       | "dictByKey" => return jList (jOpt jNat) (mergeDictByKey done paths)
       | d => .error s!"discipline {d}"
+  | "procs.sortKeys" => some do
+      return jNats (sortKeys (← natList (← field inp "keys")))
   | "procs.chunks" => some do
       let n ← asNat (← field inp "nRows")
       let p ← asNat (← field inp "nProc")
